@@ -86,6 +86,9 @@ static const char *DOC_TEXT_END = R"___(
 std::vector<OptionGroup>                         option_groups;
 std::unordered_map<std::string, GenericOption *> option_map;
 
+//! the config file that load_option_file() is reading (an included file while its lines are processed)
+static const char *current_config_file = nullptr;
+
 #define LOG_CONFIG(...) \
    log_config(); LOG_FMT(LNOTE, __VA_ARGS__);
 
@@ -487,7 +490,8 @@ OptionWarning::OptionWarning(const GenericOption *opt, Severity severity)
    UNUSED(severity);
 
    fprintf(stderr, "Option<%s>: at %s:%d: ", to_string(opt->type()),
-           cpd.filename.c_str(), cpd.line_number);
+           (current_config_file != nullptr) ? current_config_file : cpd.filename.c_str(),
+           cpd.line_number);
 }
 
 
@@ -1217,10 +1221,23 @@ bool load_option_file(const char *filename, int compat_level)
    }
    struct nesting_guard
    {
-      nesting_guard() { ++nesting_depth; }
-      ~nesting_guard() { --nesting_depth; }
+      const char *m_outer_file;
+
+      nesting_guard(const char *file)
+         : m_outer_file(current_config_file)
+      {
+         ++nesting_depth;
+         current_config_file = file;
+      }
+
+
+      ~nesting_guard()
+      {
+         --nesting_depth;
+         current_config_file = m_outer_file;
+      }
    }
-   guard;
+   guard(filename);
 
    cpd.line_number = 0;
 
